@@ -19,12 +19,7 @@ def execWitnessedSites : List String :=
    "prev_result_handler.rs:handle_prev_state:argument_hash.expect(Result for joinable error)",
    "prev_result_handler.rs:handle_prev_state:argument_hash.unwrap()(Executed)",
    "context.rs:next_call_request_id:last_call_request_id+=1",
-   "scalar_variables.rs:get_value:unreachable(this is checked on the parsing stage)",
-   "instruction_error_definition.rs:ensure_error_code_correct:as_i64().unwrap()",
-   "values_matrix.rs:add_value_to_generation:generation_idx.checked_add(1).unwrap()",
-   "trace_slider.rs:set_position_and_len:position+subtrace_len",
-   "trace_slider.rs:set_subtrace_len:trace_len-position",
-   "merge_ctx.rs:try_get_generation:res_generations[0]"]
+   "values_matrix.rs:add_value_to_generation:generation_idx.checked_add(1).unwrap()"]
 
 /-- sites that are syntactically reachable in the model but guarded by internal invariants of the executor
 (cursor < length, fold depth > 0, a state was read before its position is mapped, scopes are closed after they
@@ -70,7 +65,7 @@ instance (env : Env) : RawOk env EL := ⟨.inr (by simp [rawSite, execPanicSites
 instance : Sites execSitesBase := ⟨fun _ h => h⟩
 
 /-- membership of a literal site in the list of allowed sites -/
-macro "site" : tactic => `(tactic| exact Sites.mem _ (by simp [execSitesBase, rawSite, execPanicSites, execWitnessedSites, execResidualSites, sSPL, sSSL, sTGG, sPMP, sPMC, sCUM, sLB, sLA, sCUR0, sCURI, sTB]))
+macro "site" : tactic => `(tactic| exact Sites.mem _ (by simp [execSitesBase, rawSite, execPanicSites, execWitnessedSites, execResidualSites, sCUM, sLB, sLA, sCUR0, sCURI, sTB]))
 
 variable {L : List String} [Sites L]
 
@@ -150,6 +145,8 @@ theorem sc_setIterableValue (s : Scalars) (n : String) (f : FoldState) : ResIn L
   · exact resIn_error _
   · exact resIn_ok _
 
+theorem resIn_uncatchable' {α} (e : UncatchableErr) : ResIn L (uncatchable e : ER α) := resIn_error _
+
 theorem sc_getValue (s : Scalars) (n : String) : ResIn L (s.getValue n) := by
   unfold Scalars.getValue
   simp only
@@ -160,7 +157,7 @@ theorem sc_getValue (s : Scalars) (n : String) : ResIn L (s.getValue n) := by
   · exact resIn_error _
   · exact resIn_ok _
   · exact resIn_ok _
-  · exact resIn_panic (by site)
+  · exact resIn_uncatchable' _   -- the clash: `IterableShadowing` since /repo 66d8bd2
 
 theorem sc_setScalarValue (s : Scalars) (n : String) (v : ValueAggregate) : ResIn L (s.setScalarValue n v) := by
   unfold Scalars.setScalarValue
